@@ -395,42 +395,95 @@ def prov_rsenc(ctx):
 
 
 def _strided_view(f, stream, src_var, block_var, is_stride):
-    """admitted forms of `src[block], src[block+B], ...`:
-       (block..src.len()).step_by(B).map(|i| src[i])
-       src.iter()[.copied()].skip(block).step_by(B)      /  src[block..].iter().step_by(B)"""
-    s = stream
-    while s[0] == "call" and (s[1].endswith("Iterator::copied") or s[1].endswith("Iterator::cloned") or s[1].endswith("into_iter")):
-        s = s[2][0]
-    if s[0] == "call" and s[1].endswith("Iterator::map"):
-        inner, cl = s[2]
-        if inner[0] == "call" and inner[1].endswith("Iterator::step_by") and is_stride(inner[2][1]):
-            rp = range_parts(inner[2][0])
-            if rp and is_var(rp[0], block_var) and rp[1][0] == "call" and rp[1][1].endswith("::len") and is_var(rp[1][2][0], src_var) and cl[0] == "closure":
-                cb = f.thir.get(cl[1])
-                if cb:
-                    ce = T.sx(cb["body"], T.let_env(cb["body"]))
-                    i = cb["params"][1]["pat"]["name"].split("#")[0]
-                    if ce[0] == "index" and is_var(ce[1], src_var) and is_var(ce[2], i):
-                        return True, "index-range form"
-                    return False, "map closure is not |i| %s[i]: %s" % (src_var, T.sx_show(ce))
-        return False, "unrecognised map/step_by chain"
-    if s[0] == "call" and s[1].endswith("Iterator::step_by") and is_stride(s[2][1]):
-        inner = s[2][0]
-        while inner[0] == "call" and (inner[1].endswith("Iterator::copied") or inner[1].endswith("Iterator::cloned")):
-            inner = inner[2][0]
-        if inner[0] == "call" and inner[1].endswith("Iterator::skip") and is_var(inner[2][1], block_var):
-            it = inner[2][0]
-            while it[0] == "call" and (it[1].endswith("Iterator::copied") or it[1].endswith("Iterator::cloned")):
-                it = it[2][0]
-            if it[0] == "call" and (it[1].endswith("::iter") or it[1].endswith("::iter_mut")) and is_var(strip_into_iter(it[2][0]), src_var):
-                return True, "iter().skip(block).step_by(B) form"
-        if inner[0] == "call" and (inner[1].endswith("::iter") or inner[1].endswith("::iter_mut")):
-            base = inner[2][0]
-            if base[0] == "call" and base[1].endswith("::index") or base[0] == "call" and base[1].endswith("::index_mut"):
-                rf = adt_fields(base[2][1], "core::ops::RangeFrom")
-                if rf and is_var(rf.get("start"), block_var) and is_var(strip_into_iter(base[2][0]), src_var):
-                    return True, "src[block..].iter().step_by(B) form"
-    return False, "not a direct strided view of `%s` (buffering or a different stride/offset cannot be shown to cover every codeword of the block)" % src_var
+    """`stream` yields src[block], src[block + B], ... : any spelling that view_of() recognises"""
+    v = view_of(f, stream)
+    if v is None or v[0] != "view":
+        return False, "not a direct strided view of `%s` (buffering or an unrecognised adaptor cannot be shown to cover every codeword of the block)" % src_var
+    if v[1][1] != src_var:
+        return False, "the view is over `%s`, not `%s`" % (v[1][1], src_var)
+    if v[2] != {(block_var,): 1}:
+        return False, "the view starts at offset %r, not at `%s`" % (sorted(v[2].items()), block_var)
+    if not is_stride(v[3]):
+        return False, "the view's stride is %s" % T.sx_show(v[3])
+    return True, "strided view (offset %s, stride %s)" % (block_var, T.sx_show(v[3], 40))
+
+
+# ---- strided views --------------------------------------------------------------------------------
+
+def _var_atom(x):
+    if isinstance(x, tuple) and x[0] == "var":
+        return x[1]
+    return None
+
+
+def view_of(f, e):
+    """normalise an iterator expression over a slice to ('view', base, offset_poly, stride) where
+    the view yields base[offset], base[offset + stride], ...; offset is a polynomial over variable names.
+    Recognised: X.iter()/iter_mut() [.copied()/.cloned()], X[a..], .skip(k) (before any step_by), .step_by(s),
+    (k..X.len()).step_by(s).map(|i| X[i]).  ('chain', v1, v2) for Iterator::chain.  None otherwise."""
+    e = strip_into_iter(e)
+    if not isinstance(e, tuple):
+        return None
+    if e[0] == "call" and e[1].endswith("Iterator::chain"):
+        a, b = view_of(f, e[2][0]), view_of(f, e[2][1])
+        if a and b and a[0] == "view" and b[0] == "view":
+            return ("chain", a, b)
+        return None
+    if e[0] == "call" and (e[1].endswith("Iterator::copied") or e[1].endswith("Iterator::cloned")):
+        return view_of(f, e[2][0])
+    if e[0] == "call" and e[1].endswith("Iterator::step_by"):
+        inner = view_of(f, e[2][0])
+        if inner and inner[0] == "view" and inner[3] == ("lit", 1):
+            return ("view", inner[1], inner[2], e[2][1])
+        # index-range form: (k..X.len()).step_by(s) is handled by the enclosing map
+        rp = range_parts(strip_into_iter(e[2][0]))
+        if rp:
+            return ("range", rp[0], rp[1], e[2][1])
+        return None
+    if e[0] == "call" and e[1].endswith("Iterator::skip"):
+        inner = view_of(f, e[2][0])
+        if inner and inner[0] == "view" and inner[3] == ("lit", 1):
+            off = dict(inner[2])
+            for m, c in T.poly(e[2][1], _var_atom).items():
+                off[m] = off.get(m, 0) + c
+            return ("view", inner[1], {m: c for m, c in off.items() if c}, ("lit", 1))
+        return None
+    if e[0] == "call" and e[1].endswith("Iterator::map"):
+        inner = view_of(f, e[2][0])
+        cl = e[2][1]
+        if inner and inner[0] == "range" and cl[0] == "closure" and cl[1] in f.thir:
+            cb = f.thir[cl[1]]
+            ce = T.sx(cb["body"], T.let_env(cb["body"]))
+            i = cb["params"][1]["pat"]["name"].split("#")[0] if len(cb["params"]) > 1 else None
+            if ce[0] == "index" and ce[1][0] in ("var",) and is_var(ce[2], i):
+                base = ce[1]
+                end = inner[2]
+                if end[0] == "call" and end[1].endswith("::len") and strip_into_iter(end[2][0])[:2] == base[:2]:
+                    return ("view", ("var", base[1]), T.poly(inner[1], _var_atom), inner[3])
+        return None
+    if e[0] == "call" and (e[1].endswith("::iter") or e[1].endswith("::iter_mut")) and len(e[2]) == 1:
+        base = strip_into_iter(e[2][0])
+        off = {}
+        while base[0] == "call" and (base[1].endswith("::index") or base[1].endswith("::index_mut")) and len(base[2]) == 2:
+            rf = adt_fields(base[2][1], "core::ops::RangeFrom")
+            if not rf:
+                return None
+            for m, c in T.poly(rf["start"], _var_atom).items():
+                off[m] = off.get(m, 0) + c
+            base = strip_into_iter(base[2][0])
+        if base[0] == "var":
+            return ("view", ("var", base[1]), {m: c for m, c in off.items() if c}, ("lit", 1))
+        return None
+    return None
+
+
+def view_key(v):
+    """hashable form"""
+    if v is None:
+        return None
+    if v[0] == "chain":
+        return ("chain", view_key(v[1]), view_key(v[2]))
+    return ("view", v[1][1], frozenset(v[2].items()), v[3])
 
 
 def uniform(ctx):
@@ -456,24 +509,12 @@ def uniform(ctx):
 PEE = "errorcode::decoding::primitive_element_evaluation"
 
 
-def _norm_view(e):
-    """normalise a strided codeword view to ('chain', (base, stride), (base, stride)) or None;
-    iter/iter_mut/copied/cloned are transparent"""
-    def one(x):
-        x = strip_into_iter(x)
-        if x[0] == "call" and x[1].endswith("Iterator::step_by"):
-            inner, stride = x[2]
-            inner = strip_into_iter(inner)
-            while inner[0] == "call" and (inner[1].endswith("::iter") or inner[1].endswith("::iter_mut") or inner[1].endswith("Iterator::copied") or inner[1].endswith("Iterator::cloned")):
-                inner = strip_into_iter(inner[2][0])
-            return (inner, stride)
+def _norm_view(e, f=None):
+    """('chain', view_key, view_key) for a chain of two strided views, else None"""
+    v = view_of(f, e)
+    if v is None or v[0] != "chain":
         return None
-    e = strip_into_iter(e)
-    if e[0] == "call" and e[1].endswith("Iterator::chain"):
-        a, b = one(e[2][0]), one(e[2][1])
-        if a and b:
-            return ("chain", a, b)
-    return None
+    return view_key(v)
 
 
 def _is_full_syndromes(x, name="syndromes"):
@@ -509,7 +550,7 @@ def synzero(ctx):
     need(DGEN in f.thir, r, DGEN)
     b = f.thir[DGEN]
     params = [p["pat"]["name"].split("#")[0] for p in b["params"]]
-    need(params[:4] == ["data", "error", "stride", "err_len"], r, DGEN, "(parameters data, error, stride, err_len)")
+    need({"data", "error", "stride", "err_len"} <= set(params), r, DGEN, "(parameters data, error, stride, err_len)")
     sts = T.stmts(b["body"], {"__noinline__": True})
     obs = []
     site0 = T.span_str(b["span"])
@@ -528,8 +569,9 @@ def synzero(ctx):
         view = e[2][0]
         if view[0] == "var" and view[2] in viewvars:
             view = viewvars[view[2]]
-        nv = _norm_view(view)
-        okv = nv is not None and is_var(nv[1][0], "data") and is_var(nv[2][0], "error") and is_var(nv[1][1], "stride") and is_var(nv[2][1], "stride")
+        nv = _norm_view(view, f)
+        # ('chain', ('view', base, offset, stride) x 2): data then error, both with the stride parameter and the same offset
+        okv = nv is not None and nv[1][1] == "data" and nv[2][1] == "error" and is_var(nv[1][3], "stride") and is_var(nv[2][3], "stride") and nv[1][2] == nv[2][2]
         oks = _is_full_syndromes(e[2][1])
         return (okv, oks, T.sx_show(view, 200), T.sx_show(e[2][1], 120))
 
@@ -541,7 +583,7 @@ def synzero(ctx):
         kind = s[0]
         if kind == "let":
             name, init = s[1], s[3]
-            if _norm_view(init) is not None:
+            if _norm_view(init, f) is not None:
                 viewvars[name] = init
                 if _mutates_words(init):
                     verified = False
@@ -702,17 +744,69 @@ def prov_rsdec(ctx):
     if len(calls) != 1:
         return obs
     a = calls[0][2]
+    # callee's reference view (what the syndromes are computed from), in terms of its own parameters
+    need(DGEN in f.thir, r, DGEN)
+    gb = f.thir[DGEN]
+    gparams = [p["pat"]["name"].split("#")[0] for p in gb["params"]]
+    gsts = T.stmts(gb["body"], {"__noinline__": True})
+    gviews = [x[3] for x in gsts if x[0] == "let" and view_of(f, x[3]) is not None and view_of(f, x[3])[0] == "chain"]
+    need(gviews, r, DGEN, "(strided codeword view)")
+    gv = view_of(f, gviews[0])
+    need(len(a) >= len(gparams) or True, r, DGEN)
+    argmap = dict(zip(gparams, a))
 
-    def tail_from(x, base):
+    def caller_base(x):
+        """(base var, offset poly) of a slice argument: X or X[k..]"""
         x = strip_into_iter(x)
-        if x[0] == "call" and (x[1].endswith("index_mut") or x[1].endswith("::index")) and is_var(strip_into_iter(x[2][0]), base):
+        off = {}
+        while x[0] == "call" and (x[1].endswith("index_mut") or x[1].endswith("::index")) and len(x[2]) == 2:
             rf = adt_fields(x[2][1], "core::ops::RangeFrom")
-            return bool(rf) and is_var(rf.get("start"), bv)
-        return False
-    obs.append(Ob(r, "arg:data", tail_from(a[0], "data"), "block b's data view starts at data[b..]", detail=T.sx_show(a[0])))
-    obs.append(Ob(r, "arg:error", tail_from(a[1], "error"), "block b's error view starts at error[b..]", detail=T.sx_show(a[1])))
-    obs.append(Ob(r, "arg:stride", is_setup_field(a[2], "num_ecc_blocks"), "stride = block_setup(size).num_ecc_blocks", detail=T.sx_show(a[2])))
-    obs.append(Ob(r, "arg:err_len", is_setup_field(a[3], "num_ecc_per_block"), "err_len = block_setup(size).num_ecc_per_block", detail=T.sx_show(a[3])))
+            if not rf:
+                return None, None
+            for m, c in T.poly(rf["start"], _var_atom).items():
+                off[m] = off.get(m, 0) + c
+            x = strip_into_iter(x[2][0])
+        if x[0] == "var":
+            return x[1], off
+        return None, None
+
+    def effective(view):
+        """the callee's view expressed over the caller's variables"""
+        base_param = view[1][1]
+        cb, coff = caller_base(argmap.get(base_param, ("?",)))
+        if cb is None:
+            return None
+        off = dict(coff)
+        for m, c in view[2].items():
+            # substitute callee parameters by caller arguments (simple variables or literals only)
+            sub = {(): 1}
+            for v in m:
+                arg = argmap.get(v)
+                if arg is None:
+                    return None
+                pa = T.poly(arg, _var_atom)
+                nxt = {}
+                for m1, c1 in sub.items():
+                    for m2, c2 in pa.items():
+                        mm = tuple(sorted(m1 + m2))
+                        nxt[mm] = nxt.get(mm, 0) + c1 * c2
+                sub = nxt
+            for m2, c2 in sub.items():
+                off[m2] = off.get(m2, 0) + c * c2
+        stride = view[3]
+        if stride[0] == "var" and stride[1] in argmap:
+            stride = argmap[stride[1]]
+        return cb, {m: c for m, c in off.items() if c}, stride
+    ed, ee = effective(gv[1]), effective(gv[2])
+    want_off = {(bv,): 1}
+    obs.append(Ob(r, "arg:data", ed is not None and ed[0] == "data" and ed[1] == want_off,
+                  "block b reads/corrects the data codewords b, b+B, b+2B, ... (effective view of decode_gen over decode's `data`: offset %s)" % (sorted(ed[1].items()) if ed else None), detail=T.sx_show(a[0])))
+    obs.append(Ob(r, "arg:error", ee is not None and ee[0] == "error" and ee[1] == want_off,
+                  "block b reads/corrects the error codewords b, b+B, ... (effective offset %s)" % (sorted(ee[1].items()) if ee else None), detail=T.sx_show(a[1])))
+    obs.append(Ob(r, "arg:stride", ed is not None and ee is not None and is_setup_field(ed[2], "num_ecc_blocks") and is_setup_field(ee[2], "num_ecc_blocks"),
+                  "both views step by block_setup(size).num_ecc_blocks", detail=T.sx_show(ed[2]) if ed else None))
+    el = argmap.get("err_len")
+    obs.append(Ob(r, "arg:err_len", el is not None and is_setup_field(el, "num_ecc_per_block"), "err_len = block_setup(size).num_ecc_per_block", detail=T.sx_show(el) if el else None))
     obs += floor(obs, r, 7, "decoder wiring obligations")
     return obs
 
@@ -744,28 +838,39 @@ def gather_scatter(ctx):
                 return expand(e2, depth - 1)
         return e
 
-    def is_ceil_len(e, base):
-        """(len(base) + stride - 1) / stride  or  len(base).div_ceil(stride)"""
+    def latom(x):
+        if x[0] == "call" and x[1].endswith("::len") and strip_into_iter(x[2][0])[0] == "var":
+            return "LEN:" + strip_into_iter(x[2][0])[1]
+        if x[0] == "var":
+            return x[1]
+        return None
+
+    def is_ceil_len(e, base, off=None):
+        """number of elements of the strided view over `base` starting at offset `off`:
+        (len(base) - off + stride - 1) / stride   or   (len(base) - off).div_ceil(stride)"""
         e = expand(e)
-        if e[0] == "call" and e[1].endswith("div_ceil"):
-            return e[2][0][0] == "call" and e[2][0][1].endswith("::len") and is_var(strip_into_iter(e[2][0][2][0]), base) and is_var(e[2][1], "stride")
+        want = {("LEN:" + base,): 1}
+        for m, c in (off or {}).items():
+            want[m] = want.get(m, 0) - c
+        want = {m: c for m, c in want.items() if c}
+        if e[0] == "call" and e[1].endswith("div_ceil") and is_var(e[2][1], "stride"):
+            return T.poly(e[2][0], latom) == want
         if e[0] == "bin" and e[1] == "Div" and is_var(e[3], "stride"):
-            num = e[2]
-            if num[0] == "bin" and num[1] == "Sub" and num[3] == ("lit", 1) and num[2][0] == "bin" and num[2][1] == "Add":
-                p, q = num[2][2], num[2][3]
-                def is_len(x):
-                    return x[0] == "call" and x[1].endswith("::len") and is_var(strip_into_iter(x[2][0]), base)
-                return (is_len(p) and is_var(q, "stride")) or (is_len(q) and is_var(p, "stride"))
+            w2 = dict(want)
+            w2[("stride",)] = w2.get(("stride",), 0) + 1
+            w2[()] = w2.get((), 0) - 1
+            return T.poly(e[2], latom) == {m: c for m, c in w2.items() if c}
         return False
+
+    # the syndrome view
+    views = [s[3] for s in sts if s[0] == "let" and _norm_view(s[3], f) is not None]
+    need(views, r, DGEN, "(strided codeword view)")
+    ref_view = _norm_view(views[0], f)
+    off_d, off_e = dict(ref_view[1][2]), dict(ref_view[2][2])
 
     def is_n(e):
         e = expand(e)
-        return e[0] == "bin" and e[1] == "Add" and ((is_ceil_len(e[2], "data") and is_ceil_len(e[3], "error")) or (is_ceil_len(e[3], "data") and is_ceil_len(e[2], "error")))
-
-    # the syndrome view
-    views = [s[3] for s in sts if s[0] == "let" and _norm_view(s[3]) is not None]
-    need(views, r, DGEN, "(strided codeword view)")
-    ref_view = _norm_view(views[0])
+        return e[0] == "bin" and e[1] == "Add" and ((is_ceil_len(e[2], "data", off_d) and is_ceil_len(e[3], "error", off_e)) or (is_ceil_len(e[3], "data", off_d) and is_ceil_len(e[2], "error", off_e)))
     # correction loop: the for loop that stores into data/error
     corr = None
     for s in sts:
@@ -807,7 +912,7 @@ def gather_scatter(ctx):
         if src is not None:
             nth = [x for x in T.sx_walk(src) if x[0] == "call" and x[1].endswith("::nth")]
             if len(nth) == 1:
-                v = _norm_view(nth[0][2][0])
+                v = _norm_view(nth[0][2][0], f)
                 idx = expand(nth[0][2][1])
                 det = {"view": T.sx_show(nth[0][2][0], 200), "index": T.sx_show(idx, 200)}
                 same_view = v is not None and ref_view is not None and v == ref_view
@@ -835,12 +940,12 @@ def gather_scatter(ctx):
                 return x[0] == "bin" and x[1] == "Sub" and x[3] == ("lit", 1) and x[2][0] == "bin" and x[2][1] == "Sub" and is_n(x[2][2])
             dx, ex = expand(di), expand(ei)
             okd = dx[0] == "bin" and dx[1] == "Mul" and ((is_pos(dx[2]) and is_var(dx[3], "stride")) or (is_pos(dx[3]) and is_var(dx[2], "stride")))
-            oke = ex[0] == "bin" and ex[1] == "Mul" and is_var(ex[3], "stride") and ex[2][0] == "bin" and ex[2][1] == "Sub" and is_pos(ex[2][2]) and is_ceil_len(ex[2][3], "data")
+            oke = ex[0] == "bin" and ex[1] == "Mul" and is_var(ex[3], "stride") and ex[2][0] == "bin" and ex[2][1] == "Sub" and is_pos(ex[2][2]) and is_ceil_len(ex[2][3], "data", off_d)
             ok = okd and oke
     obs.append(Ob(r, "store-address", ok,
                   "the corrected codeword is addressed exactly like the word whose syndromes were computed "
                   "(same data/error strided chain, position n-i-1; or data[p*stride] / error[(p-n_data)*stride])%s" % ("" if ok else "; found: %s" % form),
                   site=site, detail=det))
-    obs.append(Ob(r, "n", is_n(("var", "n", None)) if "n" in pure else False, "n = ceil(len(data)/stride) + ceil(len(error)/stride) (length of the strided block)", detail=T.sx_show(expand(("var", "n", None)), 200) if "n" in pure else None))
+    obs.append(Ob(r, "n", is_n(("var", "n", None)) if "n" in pure else False, "n = number of elements of the data view + number of elements of the error view (ceil((len - offset) / stride) each)", detail=T.sx_show(expand(("var", "n", None)), 200) if "n" in pure else None))
     obs += floor(obs, r, 4, "gather/scatter obligations")
     return obs
